@@ -3,6 +3,7 @@ package main
 import (
 	"fmt"
 	"os"
+	"strings"
 	"go/constant"
 	"go/token"
 	"go/types"
@@ -10,6 +11,14 @@ import (
 
 	"golang.org/x/tools/go/ssa"
 )
+
+func constantFloatInt(c *ssa.Const) (int64, bool) {
+	f, _ := constant.Float64Val(constant.ToFloat(c.Value))
+	if f == float64(int64(f)) && f > -1e15 && f < 1e15 {
+		return int64(f), true
+	}
+	return 0, false
+}
 
 func constantBool(c *ssa.Const) bool     { return constant.BoolVal(c.Value) }
 func constantString(c *ssa.Const) string { return constant.StringVal(c.Value) }
@@ -441,7 +450,29 @@ func (in *Interp) convert(g *Term, v Value, from, to types.Type) Value {
 		}
 		return mkZExt(t, wt)
 	}
+	if isFloat(to) && okf && wf > 0 {
+		t := v.(*Term)
+		if sf {
+			return &FloatInt{mkSExt(t, 64)}
+		}
+		if wf < 64 {
+			return &FloatInt{mkZExt(t, 64)}
+		}
+		return &Opaque{"uint64 to float"}
+	}
+	if isFloat(from) && okt && wt > 0 {
+		if f, ok := v.(*FloatInt); ok {
+			if wt < 64 {
+				return mkExtract(f.T, wt-1, 0)
+			}
+			return f.T
+		}
+		return &Opaque{"float conversion"}
+	}
 	if isFloat(to) || isFloat(from) {
+		if _, ok := v.(*FloatInt); ok {
+			return v
+		}
 		return &Opaque{"float conversion"}
 	}
 	if isString(to) {
@@ -1165,6 +1196,23 @@ func (fr *Frame) rangeIter(x *ssa.Range) Value {
 				}
 				return ki < kj
 			})
+			if in.permuteMaps && in.forkMode && len(ents) > 1 && len(ents) <= 4 && in.permuteHere(fr) {
+				// the iteration order of this range is a symbolic choice: one path per permutation
+				perms := permutations(len(ents))
+				v := in.fresh("maporder", "maporder", 8, fr.g)
+				chosen := len(perms) - 1
+				for pi := 0; pi < len(perms)-1; pi++ {
+					if in.decide(mkEq(v, mkConst(8, uint64(pi)))) {
+						chosen = pi
+						break
+					}
+				}
+				pe := make([]*MapEntry, len(ents))
+				for i, p := range perms[chosen] {
+					pe[i] = ents[p]
+				}
+				ents = pe
+			}
 			if in.mapOrder != nil && len(ents) > 1 {
 				keys := make([]string, len(ents))
 				for i, e := range ents {
@@ -1246,6 +1294,30 @@ func (fr *Frame) next(x *ssa.Next) Value {
 	}
 	in.unsupported(g, "next on opaque iterator")
 	return &TupleVal{Elems: []Value{tFalse, &Opaque{"next"}, &Opaque{"next"}}}
+}
+
+func (in *Interp) permuteHere(fr *Frame) bool {
+	name := fr.fn.String()
+	for _, s := range in.permuteSites {
+		if strings.Contains(name, s) {
+			return true
+		}
+	}
+	return false
+}
+
+func permutations(n int) [][]int {
+	if n == 1 {
+		return [][]int{{0}}
+	}
+	var out [][]int
+	for _, p := range permutations(n - 1) {
+		for i := 0; i <= len(p); i++ {
+			q := append(append(append([]int{}, p[:i]...), n-1), p[i:]...)
+			out = append(out, q)
+		}
+	}
+	return out
 }
 
 // ---- type assertions
